@@ -228,6 +228,13 @@ def need(v, where):
     return v
 
 
+class LocalFn:
+    """a helper function defined inside the interpreted function"""
+
+    def __init__(self, node, env):
+        self.node, self.env = node, env
+
+
 class _Return(Exception):
     def __init__(self, v):
         self.v = v
@@ -312,7 +319,11 @@ class Interp:
         if isinstance(st, ast.Pass):
             return
         if isinstance(st, ast.FunctionDef):
-            env[st.name] = Opaque("nested function %s" % st.name)
+            a = st.args
+            if a.vararg or a.kwarg or a.kwonlyargs or a.posonlyargs or st.decorator_list:
+                env[st.name] = Opaque("nested function %s with a non-trivial signature" % st.name)
+            else:
+                env[st.name] = LocalFn(st, env)      # inlined when called (closure = the enclosing scope)
             return
         if isinstance(st, ast.AnnAssign):
             if st.value is not None and isinstance(st.target, ast.Name):
@@ -437,6 +448,10 @@ class Interp:
         if not isinstance(idx, tuple):
             idx = (idx,)
         val = v.data if isinstance(v, Arr) else v
+        if any(i is Ellipsis for i in idx):
+            nd = len(arr.shape)
+            k = idx.index(Ellipsis)
+            idx = idx[:k] + (slice(None),) * (nd - len(idx) + 1) + idx[k + 1:]
 
         def rec(d, idx, val):
             i, rest = idx[0], idx[1:]
@@ -567,7 +582,17 @@ class Interp:
                     out += v
             return out
         if isinstance(n, (ast.List, ast.Tuple)):
-            vals = [self.ev(e, env) for e in n.elts]
+            vals = []
+            for e in n.elts:
+                if isinstance(e, ast.Starred):
+                    v = self.ev(e.value, env)
+                    if isinstance(v, Arr):
+                        v = v.data
+                    if not (isinstance(v, (list, tuple)) and not is_tree(v)):
+                        return Opaque("starred expression `%s`" % ast.unparse(e)[:40])
+                    vals.extend(v)
+                else:
+                    vals.append(self.ev(e, env))
             return vals if isinstance(n, ast.List) else tuple(vals)
         if isinstance(n, ast.UnaryOp):
             v = self.ev(n.operand, env)
@@ -697,6 +722,24 @@ class Interp:
                 return self.calls[key](args, kw)
             return Opaque("call self.%s" % name)
         if isinstance(f, ast.Name):
+            if isinstance(env.get(f.id), LocalFn):
+                lf = env[f.id]
+                names = [x.arg for x in lf.node.args.args]
+                defaults = lf.node.args.defaults
+                bound = dict(lf.env)
+                for nm, dv in zip(names[len(names) - len(defaults):], defaults):
+                    bound[nm] = self.ev(dv, lf.env)
+                if len(args) > len(names) or any(k not in names for k in kw):
+                    return Opaque("call of local function %s with unexpected arguments" % f.id)
+                bound.update(zip(names, args))
+                bound.update(kw)
+                if any(nm not in bound or isinstance(bound[nm], LocalFn) for nm in names):
+                    return Opaque("call of local function %s: missing argument" % f.id)
+                try:
+                    self.block(lf.node.body, bound)
+                except _Return as r:
+                    return r.v
+                return None
             if f.id in self.calls:
                 return self.calls[f.id](args, kw)
             if f.id == "len" and len(args) == 1:
